@@ -1,5 +1,7 @@
 package main
 
+import "strings"
+
 // Job is one test binary (repo package) with scenarios to run.
 type Job struct {
 	Pkg       string   // repo-relative package directory
@@ -313,4 +315,27 @@ var checks = []Check{
 			{Pkg: "proc/redis", Scenarios: []string{"smoke"}, Shards: 1, QuickS: 60, ThoroughS: 120},
 		},
 	},
+}
+
+// A scenario that is shared with another property is explored to its full thorough budget under its home property;
+// as a job of another property it gets at most 100 s in the thorough tier (its quick budget is unchanged).
+func init() {
+	for ci := range checks {
+		c := &checks[ci]
+		for ji := range c.Jobs {
+			j := &c.Jobs[ji]
+			home := false
+			for _, s := range j.Scenarios {
+				if strings.HasPrefix(s, c.ID+"/") {
+					home = true
+				}
+			}
+			if !home && c.ID != "SELFTEST" && j.ThoroughS > 100 {
+				j.ThoroughS = 100
+				if j.QuickS > j.ThoroughS {
+					j.ThoroughS = j.QuickS
+				}
+			}
+		}
+	}
 }
